@@ -232,6 +232,10 @@ def conforms(t, decl):
     if t is dict and isinstance(decl, type) and issubclass(decl, dict) and \
             getattr(decl, '__module__', '').startswith('beanquery'):
         return True
+    # BQL keeps booleans and integers apart (separate overloads, renderers, literals); Python does not: a bool under a column announced
+    # as int prints as True / False and names pivot blocks `True/x`
+    if t is bool and decl is int:
+        return False
     try:
         return issubclass(t, decl)
     except TypeError:
@@ -345,6 +349,10 @@ CALL_TABLE = {
     re.match: _const(re.Match, NoneT),
     re.fullmatch: _const(re.Match, NoneT),
     re.sub: _const(str),
+    re.subn: lambda it, a, k, n: Tup((A(str), A(int))),
+    re.split: lambda it, a, k, n: Coll(list, A(str, NoneT)),
+    # one string per match without groups or with one group, a tuple of strings with several groups
+    re.findall: lambda it, a, k, n: Coll(list, A(str, tuple)),
     textwrap.shorten: _const(str),
     _copy.copy: _ident(0),
     datetime.datetime.strptime: _const(datetime.datetime),
@@ -373,7 +381,7 @@ except ImportError:   # pragma: no cover
 # value-dependent exceptions of library callables that cannot be sampled
 CALL_RAISES = {
     datetime.datetime.strptime: ('ValueError',),
-    re.search: ('error',), re.match: ('error',), re.fullmatch: ('error',), re.sub: ('error',),
+    re.search: ('error',), re.match: ('error',), re.fullmatch: ('error',), re.sub: ('error',), re.findall: ('error',),
     re.compile: ('error',),
 }
 
